@@ -118,6 +118,9 @@ def apply_changes(files, changes):
             for x in c.changes:
                 go(x)
         elif isinstance(c, ch.ChangeContents):
+            if c.new_contents is None:
+                # what Project.do does with it (fscommands.unicode_to_file_data asserts a str)
+                raise AssertionError("ChangeContents(%s) carries no contents" % c.resource.path)
             files[c.resource.path] = c.new_contents
         elif isinstance(c, ch.MoveResource):
             a, b = c.resource.path, c.new_resource.path
